@@ -127,7 +127,7 @@ let item_of (e : sexp) : M.item =
   | _ -> failwith "item syntax"
 
 let class_s = function
-  | M.CVariantAttr -> "VariantAttr" | M.CMultipleAttrs -> "MultipleAttrs" | M.CUnknownItemKey -> "UnknownItemKey" | M.CUseDiscrStruct -> "UseDiscrStruct"
+  | M.CVariantAttr -> "VariantAttr" | M.CMultipleAttrs -> "MultipleAttrs" | M.CRepeatedKey -> "RepeatedKey" | M.CUnknownItemKey -> "UnknownItemKey" | M.CUseDiscrStruct -> "UseDiscrStruct"
   | M.CUseDiscrValue -> "UseDiscrValue" | M.CMalformedValue -> "MalformedValue" | M.CTooManyVariants -> "TooManyVariants"
   | M.CDiscrNeedsSetting -> "DiscrNeedsSetting" | M.CSkipConflict -> "SkipConflict" | M.CSkipSchemaConflict -> "SkipSchemaConflict"
   | M.CUnknownFieldKey -> "UnknownFieldKey" | M.CWithFuncsIncomplete -> "WithFuncsIncomplete" | M.CUnion -> "Union"
@@ -135,7 +135,7 @@ let class_s = function
 let rule_s = function
   | M.RDiscrNoSetting -> "DiscrNoSetting" | M.RUseDiscrStruct -> "UseDiscrStruct" | M.RUseDiscrValue -> "UseDiscrValue"
   | M.RDiscrFit -> "DiscrFit" | M.RTooManyVariants -> "TooManyVariants" | M.RSkipConflict -> "SkipConflict"
-  | M.RUnknownAttr -> "UnknownAttr" | M.RRepeatedAttr -> "RepeatedAttr" | M.RUnion -> "Union" | M.RUndocumented -> "Undocumented"
+  | M.RUnknownAttr -> "UnknownAttr" | M.RRepeatedAttr -> "RepeatedAttr" | M.RRepeatedKey -> "RepeatedKey" | M.RUnion -> "Union" | M.RUndocumented -> "Undocumented"
 let kind_of = function
   | "ser" -> M.DSer | "de" -> M.DDe | "schema" -> M.DSchema | s -> failwith ("derive kind " ^ s)
 let rec nat_to_int = function M.O -> 0 | M.S n -> 1 + nat_to_int n
